@@ -843,7 +843,17 @@ pub fn run_c14(args: &Args, tier: &str, seed: u64) -> Report {
                 idx += nthreads as u64;
                 continue;
             }
-            let p = if (idx as usize) < grid.len() { grid[idx as usize].clone() } else { uris::random(&mut Rng::fork(seed ^ 0xC14, idx)) };
+            let mut p = if (idx as usize) < grid.len() { grid[idx as usize].clone() } else { uris::random(&mut Rng::fork(seed ^ 0xC14, idx)) };
+            // every 997th target is padded to one of the largest sizes http::Uri accepts (65534 octets in total)
+            if idx % 997 == 5 {
+                let want = 65534 - (idx / 997 % 12) as usize;
+                let cur = p.to_uri().len();
+                if cur < want {
+                    let mut path = if p.path.is_empty() { "/".to_string() } else { p.path.clone() };
+                    path.push_str(&"a".repeat(want - cur - (path.len() - p.path.len())));
+                    p.path = path;
+                }
+            }
             let s = p.to_uri();
             let replay = vec!["c14".to_string(), "--seed".into(), seed.to_string(), "--only".into(), idx.to_string()];
             let uri: Uri = match s.parse() {
